@@ -40,6 +40,10 @@ MUT = {
  "m36": ("internal/forwarder/perio/server.go", "\t\t\t\t\tif len(perioGroup.urrids[e.lSeid]) == 0 {", "\t\t\t\t\tif len(perioGroup.urrids[e.lSeid]) <= 1 {"),
  "m37": ("internal/forwarder/perio/server.go", "\t\t\t\t\t\t\tperioGroup.stopTicker()\n\t\t\t\t\t\t\tdelete(s.perioList, period)", "\t\t\t\t\t\t\tdelete(s.perioList, period)"),
  "m38": ("internal/forwarder/buffnetlink/server.go", "\t\t\t\tUplinkVolume:   r.VolMeasurement.UplinkVolume,\n\t\t\t\tDownlinkVolume: r.VolMeasurement.DownlinkVolume,\n\t\t\t\tTotalPktNum:", "\t\t\t\tUplinkVolume:   r.VolMeasurement.DownlinkVolume,\n\t\t\t\tDownlinkVolume: r.VolMeasurement.UplinkVolume,\n\t\t\t\tTotalPktNum:"),
+ "m40": ("internal/pfcp/transaction.go", "\t\t\trx.server.NotifyTransTimeout(RX, rx.id)", "\t\t\trx.handleTimeout()"),
+ "m41": ("internal/pfcp/pfcp.go", "\tREPORT_CHANNEL_LEN        = 128", "\tREPORT_CHANNEL_LEN        = 16"),
+ "m42": ("internal/forwarder/perio/server.go", "\tEVENT_CHANNEL_LEN = 512", "\tEVENT_CHANNEL_LEN = 64"),
+ "m43": ("internal/pfcp/pfcp.go", "\tselect {\n\tcase s.trToCh <- TransactionTimeout{TrType: trType, TrID: trID}:\n\tcase <-s.done:\n\t}", "\ts.trToCh <- TransactionTimeout{TrType: trType, TrID: trID}"),
 }
 name = sys.argv[1]
 f, old, new = MUT[name]
